@@ -44,7 +44,9 @@ CHECKS = [
         "note": "Oracles: XSD enumeration facets and presetShapeDefinitions.xml read from /repo/spec at run time (the file's known "
                 "erratum -- upDownArrow defined twice, upArrow missing -- is handled explicitly). Pairing enum->XSD type recovered "
                 "from attribute declarations except MSO_CONNECTOR_TYPE (stated). Known findings F19 (7 members sharing a token); "
-                "F21, F23 repaired by fix: commits.",
+                "F21, F23 repaired by fix: commits. Guides are matched to adjustments by name: contract on "
+                "_update_adjustments_with_actuals with list lengths enumerated (1..3 adjustments x 0..3 guides, names and values symbolic); "
+                "longer / reordered / partial guide lists on every preset only in the bounded native job.",
     },
     {
         "property_id": "C10",
@@ -129,7 +131,9 @@ CHECKS = [
                 "ratio of the view exactly).",
         "note": "Assumed: Pillow reports format / pixel size >= 1x1 / dpi; SHA-1 injective on the inputs at hand; IEEE doubles as reals. "
                 "_ImageParts.__iter__ (dedupe generator) enters as a ghost sequence. Byte-exactness, part naming across slides, "
-                "misleading extensions and save/re-open are covered by the bounded C15.native_images job only (never counted as proved).",
+                "misleading extensions, EXIF orientation 1..8 (JPEG, PNG; TIFF excluded because Pillow transposes the grid itself) and save/re-open "
+                "are covered by the bounded C15.native_images job only (never counted as proved). Image._pil_props is under contract with the "
+                "Pillow image as an external ghost (an attribute the contract does not list makes the contract unsupported, not refuted).",
     },
     {
         "property_id": "C19",
@@ -144,7 +148,8 @@ CHECKS = [
                 "RFC 3986.",
         "note": "Assumed: posixpath.split/splitext/join/normpath/abspath/relpath as contracts on structured paths (pyvc/pathmodel.py) "
                 "and the file-name regex on letter/digit stems; both probed natively against the real posixpath/PackURI on all names "
-                "over a 9-segment alphabet up to depth 3 (C19.posixpath_probe, bounded, never counted as proved).",
+                "over a 9-segment alphabet up to depth 3 (C19.posixpath_probe, bounded, never counted as proved). from_rel_ref is also "
+                "proved for root-absolute references that are not in normal form ('/abs/../t', '/abs/./t', '/abs//t', '/../t').",
     },
     {
         "property_id": "C14",
@@ -235,7 +240,9 @@ CHECKS.append({
     "note": "Assumed: add_placeholder / new_placeholder_sp put exactly that shape last in the tree (C05/C10 obligations; probed natively); "
             "C06 allocator contracts applied to 'initial ids + ids added so far'; _add_sldId appends (C10 obligation). Whole-deck behaviour "
             "(every layout of the default deck, 120/1500 random layouts, notes slide, save/reopen) is the bounded C13.native_layouts job, never "
-            "counted as proved. F13a/F13b (sldImg / hdr KeyError) repaired by fix: commits.",
+            "counted as proved; its oracle reads the placeholders from the XML (any element carrying p:ph, incl. p:pic / p:graphicFrame), and "
+            "_is_member_elm of the three placeholder collections is under contract for each shape element class. "
+            "F13a/F13b (sldImg / hdr KeyError) repaired by fix: commits.",
 })
 
 CHECKS.append({
@@ -250,7 +257,8 @@ CHECKS.append({
             "item keyed by its own rId with its own type/mode/target); _PhysPkgReader.factory, _ZipPkgReader.__getitem__, api.Presentation and "
             "OpcPackage.main_document_part exception mapping; Package.core_properties creates the default part once; PartFactory._part_cls_for.",
     "note": "Assumed: zipfile/os.path behaviour, PackURI arithmetic as functions of the name (C19), str.lower as an uninterpreted function. "
-            "_ContentTypeMap.from_xml, _PackageLoader._parts/_xml_rels/_load and the directory reader are covered only by the bounded "
+            "os.path.exists as a total function of the path text (contract on _DirPkgReader.__contains__). Reading through the directory reader "
+            "(incl. directories named through a symbolic link, '..', a relative path, a trailing separator) is covered only by the bounded "
             "C16.native_irregular job (every irregularity at every location of two generated decks; never counted as proved).",
 })
 
